@@ -35,7 +35,10 @@ CLAIMED.update({
         "clear = last record) preserved by steps, scratch growth, clears and temperature sweeps for every input stream; per-index access theorem "
         "for every index in [-len,len); record rule (accepted = proposal with the model's outputs, rejected = previous record, -inf prior never "
         "accepted). Tied to the code by the machine correspondence; on the same traces every access path is read and the pure model re-evaluated.",
-   note=MACH_NOTE + " Genuineness of blobs and across sweeps is covered by C09_permutes and the correspondence (C08_genuine_partial is per level).",
+   note=MACH_NOTE + " C08_all_records_genuine (Genuine_proofs.v): on every level, after any schedule of runs and clears and across every sweep, "
+        "every record (position, logl, logp, blob) is one model evaluation made by some level - premise: the model returns a blob always or never "
+        "(the code raises otherwise). Source tie (Props/C08_src.v): len(chain) and the scratch growth of run(), regenerated from /repo by "
+        "tools/py2coq.py on every run, equal the model's arithmetic for all inputs.",
    technique="Coq proof (invariant by induction over operations) + vm_compute correspondence", ref="DESIGN.md section 3, C08"),
  'C09': dict(
    text="Theorems: sweep iff iteration is a multiple of the swap interval (and >1 level); the code's index array equals the fold of adjacent "
@@ -43,7 +46,9 @@ CLAIMED.update({
         "lists); after the sweep level t holds position/stats/blob/active set of level swap_index[t], acceptance records and call logs "
         "untouched; invariant preserved. The 'one visible row per sweep since the last clear' clause is refuted in Coq for the code as it is "
         "(known finding D3). Correspondence against real swap_temperatures() calls captured before/after.",
-   note=MACH_NOTE, technique="Coq proof (refinement of the index array to adjacent exchanges, permutation, invariant) + vm_compute correspondence",
+   note=MACH_NOTE + " Source tie (Props/C09_src.v): the condition under which ParallelTemperedChain.step sweeps, regenerated from /repo by "
+        "tools/py2coq.py on every run, equals the model's for all inputs, and the guarded block is exactly the call of swap_temperatures.",
+   technique="Coq proof (refinement of the index array to adjacent exchanges, permutation, invariant) + vm_compute correspondence",
    ref="DESIGN.md section 3, C09"),
  'C18': dict(
    text="The machine carries the model-call log as ghost state; theorems: a step appends exactly one call at its proposed point with the values it "
@@ -60,7 +65,9 @@ CLAIMED['C15'] = dict(
         "contributes no density term and is not adapted; clocks advance by one per iteration whatever happens and constituents do not "
         "influence each other. Every (k, D, start_step, _nsteps, decision) observed on real chains of 16 proposal families - one iteration at a "
         "time, across clear and pickle-resume into a fresh sampler - is re-evaluated by the model under vm_compute.",
-   note=COMMON_NOTE + "Whether a constituent jumped/was adapted/contributed a density is observed by wrapping its methods on live instances.",
+   note=COMMON_NOTE + "Whether a constituent jumped/was adapted/contributed a density is observed by wrapping its methods on live instances. "
+        "Source tie (Props/C15_src.v): nsteps, _call_jump and update as written in /repo's base.py today are translated to Gallina on every "
+        "run (tools/py2coq.py, fail-closed) and proved equal to the model's clock for every state.",
    technique="Coq proof (arithmetic of the clock, induction over iterations) + vm_compute correspondence", ref="DESIGN.md section 3, C15")
 
 NUM_NOTE = COMMON_NOTE + ("The numeric kernel is ONE Gallina definition over a numeric type class, instantiated with R for the theorems and with "
@@ -103,8 +110,11 @@ CLAIMED['C13'] = dict(
         "sense with the acceptance ratio; once dk >= duration every update is the identity, for every later history. The float instance is run "
         "against every real _update call of all 18 adaptive classes under forced histories (incl. a mid-run reset), which are also checked for "
         "direction and freezing directly.",
-   note=NUM_NOTE + "Componentwise and full-covariance Andrieu-Thoms and the eigenvector covariance recursion are not modelled (direct checks only). "
-        "A user-supplied adaptation_decay larger than 1/log10(duration) reverses the Veitch direction: outside the theorem's premise and the quantifier.",
+   note=NUM_NOTE + "Componentwise and full-covariance Andrieu-Thoms and the eigenvector covariance / mean recursion are modelled in AdaptM.v "
+        "(per-component direction, global direction, frozen for ever; the acceptance ratio of each virtual move is an oracle input scripted by "
+        "the harness; numpy.linalg.eigh is not modelled, the eigenvalues are compared with eigh(cov)*exp(log_lambda) directly). Source tie "
+        "(Props/C13_src.v): the window test of every _update, regenerated from /repo by tools/py2coq.py on every run, equals the model's for "
+        "all inputs, and the translator refuses an _update that does anything outside its guarded block. A user-supplied adaptation_decay larger than 1/log10(duration) reverses the Veitch direction: outside the theorem's premise and the quantifier.",
    technique="Coq proof over Reals (monotonicity of exp/ln/power, window arithmetic on Z) + vm_compute correspondence of the float instance",
    ref="DESIGN.md section 3, C13")
 CLAIMED['C14'] = dict(
@@ -114,7 +124,10 @@ CLAIMED['C14'] = dict(
         "histories (plus alternating/random) for durations 30..3000 (30000 thorough), and real chains on flat/peaked bounded targets are run "
         "with a generator-draw budget per jump. Float overflow (kappa ~ 709), cancellation (kappa ~ 1e-15) and the unbounded Robbins-Monro "
         "scale of the bounded/angular variants are real defects found this way and recorded as known findings.",
-   note=NUM_NOTE + "Loop time and IEEE overflow cannot be exhibited by the real-number model: explored on the real code only.",
+   note=NUM_NOTE + "Loop time and IEEE overflow cannot be exhibited by the real-number model: explored on the real code only. Positive "
+        "semidefiniteness (AdaptM_proofs.v): the second moment and covariance of the full-covariance Andrieu-Thoms proposals (global and "
+        "componentwise scaling) and the recursive covariance of the eigenvector proposals stay PSD as quadratic forms along every history "
+        "(w'U'w = (1-d)w'Uw + d(df.w)^2); the real matrices are checked finite, symmetric and PSD after every update.",
    technique="Coq proof over Reals (invariants, per-step envelopes) + vm_compute correspondence + extremal-history exploration of the real code",
    ref="DESIGN.md section 3, C14")
 
